@@ -7,6 +7,27 @@ import json, os, sys
 ROOT = os.path.dirname(os.path.dirname(os.path.abspath(__file__)))
 
 CHECKS = {
+    "C01": dict(
+        engine="E-BFT",
+        category="exploration",
+        technique="runtime monitor over commit events of real bft.BFT replicas in a virtual-time simulator with a network/Byzantine adversary (scripted hostile scenarios + seeded schedules)",
+        text="4..7 real bft.BFT instances are stepped by an external scheduler that owns time, the network and root-height updates; an adversary holding "
+             "< 1/3 of the power equivocates, withholds, replays old certificates, forges justifications and fabricates certificates while PRECOMMIT/COMMIT "
+             "messages are selectively hidden. The monitor is the per-height single-value check over what honest replicas commit (with the certificate "
+             "checks controller.HandlePeerBlock makes). Schedules are sampled; the scripted scenarios are the ones derived from the locking/unlocking rules.",
+        design_ref="DESIGN.md §2 C01, §3 F1",
+        note="Trusted: BLS/SHA-256; lite controller stands in for FSM block validation; committee identical at every root height; NEW_COMMITTEE resets follow the root-height visibility within 3 virtual ms, in order.",
+    ),
+    "C17": dict(
+        engine="E-P2P",
+        category="fault_enumeration",
+        technique="runtime monitor: byte-stream equality, fault injection at every frame position (bit flips, swap, duplicate, replay, drop, truncate) and active handshake interposer over in-memory pipes against real EncryptedConn",
+        text="Real p2p.NewHandshake/EncryptedConn endpoints over a fault-injecting in-memory net.Conn: stream equality for write/read size grids around the frame size; "
+             "one or two frame-level faults at every frame index of a conversation (prefix property: nothing is ever delivered that was not written at that position); "
+             "scripted active-attacker handshake transcripts judged against which private keys each endpoint really holds.",
+        design_ref="DESIGN.md §2 C17",
+        note="Trusted: X25519/ChaCha20-Poly1305/ed25519/BLS primitives; in-memory pipes, not kernel TCP; attacker strategies are the scripted families.",
+    ),
     "C08": dict(
         engine="E-STORE",
         category="exploration",
@@ -78,6 +99,7 @@ def main():
 
 NA = {}
 HOOK_COMMITS = ["bffe7c1"]
+FIX_COMMITS = ["ac69fcc"]
 
 if __name__ == "__main__":
     main()
